@@ -102,13 +102,24 @@ Definition ctx_prims (cell : option Z) : prims := fun f args s =>
   | _, _ => None
   end.
 
+(* the names the source gives the pointer it gets out of the context (renaming them does not matter) *)
+Definition cell_var (f : gfunc) : string :=
+  match gf_body f with
+  | GIf [] (GId "updateExisting") [GIf [GAssign [GId x; GId _] _] _ _ _] [] :: _ => x
+  | GAssign [GId x; GId _] _ :: _ => x
+  | _ => "?"
+  end.
+
 Definition ctx_leaves (cell : option Z) : list (string * value) :=
-  match cell with Some old => [("*existing", VZ old); ("*ttl", VZ old)] | None => [] end.
+  match cell with
+  | Some old => [("*" ++ cell_var fn_WithTTL, VZ old); ("*" ++ cell_var fn_TTL, VZ old)]
+  | None => []
+  end.
 
 (* observation: the content of the caller's cell afterwards, and the cell of a newly created context if any *)
 Definition with_ttl_view (cell : option Z) (vs : list value) (s : st) : option (option Z * option Z) :=
   let after := match cell with
-               | Some _ => match lookup "*existing" (env s) with Some (VZ x) => Some x | _ => None end
+               | Some _ => match lookup ("*" ++ cell_var fn_WithTTL) (env s) with Some (VZ x) => Some x | _ => None end
                | None => None end in
   match vs with
   | [VPtr true "ctx"] => Some (after, None)
